@@ -173,3 +173,27 @@ def expand_assumes(f, assumes):
             a = b
         out[a] = pol
     return out
+
+
+INT_WIDTH = {"_Bool": 1, "bool": 1, "char": 1, "signed char": 1, "unsigned char": 1, "short": 2, "unsigned short": 2, "int": 4, "unsigned int": 4,
+             "long": 8, "unsigned long": 8, "long long": 8, "unsigned long long": 8}
+
+
+def int_width(ct):
+    """Width in bytes of a canonical integer type spelling (None for anything else)."""
+    ct = (ct or "").replace("const ", "").replace("volatile ", "").strip()
+    return INT_WIDTH.get(ct)
+
+
+def narrowing_casts(expr, explicit=False):
+    """Integral conversions inside expr that drop bits (implicit ones; explicit casts too on request):
+    [(from_ct, to_ct, sub-expression string)]."""
+    from lm import walk as _walk, S as _S
+    out = []
+    for n in _walk(expr):
+        if (n.get("k") == "icast" or (explicit and n.get("k") == "cast")) and n.get("ck") == "IntegralCast":
+            fw, tw = int_width(n.get("from_ct")), int_width(n.get("ct"))
+            inner = n.get("e") or {}
+            if fw and tw and fw > tw and inner.get("cv") is None:
+                out.append((n.get("from_ct"), n.get("ct"), _S(inner)))
+    return out
